@@ -6,6 +6,8 @@ mod grid;
 mod helpers;
 mod refmath;
 mod scn_pair;
+mod scn_trio;
+mod scn_vault;
 mod world;
 
 use serde_json::Value;
@@ -32,6 +34,9 @@ fn main() {
             let code = match id {
                 "C01" => checks::c01::run(&tier, seed),
                 "C02" => checks::c02::run(&tier, seed),
+                "C04" => checks::c04::run(&tier, seed),
+                "C05" => checks::c05::run(&tier, seed),
+                "C07" => checks::c07::run(&tier, seed),
                 _ => {
                     eprintln!("unknown property {id}");
                     2
@@ -46,6 +51,9 @@ fn main() {
             let ok = match prop.as_str() {
                 "C01" => checks::c01::replay(&doc),
                 "C02" => checks::c02::replay(&doc),
+                "C04" => checks::c04::replay(&doc),
+                "C05" => checks::c05::replay(&doc),
+                "C07" => checks::c07::replay(&doc),
                 _ => {
                     eprintln!("unknown property in replay file");
                     std::process::exit(2)
